@@ -17,6 +17,10 @@ type ReqPlan struct {
 	Tok    string   `json:"tok"`            // c<i>r<j>
 	Expect []byte   `json:"expect,omitempty"`
 	Quit   bool     `json:"quit,omitempty"`
+	// byte-exact copies of Keys / Vals for replay files: JSON strings cannot carry bytes that are not valid UTF-8 (binary keys),
+	// []byte fields are base64. Filled by Plan.Seal before a plan is written, restored by Plan.Unseal after it is read.
+	KeysB [][]byte `json:"keys_b,omitempty"`
+	ValsB [][]byte `json:"vals_b,omitempty"`
 }
 
 type ClientPlan struct {
@@ -28,8 +32,10 @@ type ClientPlan struct {
 	StartStep         int       `json:"start_step,omitempty"`
 	StartAfterClient  int       `json:"start_after_client,omitempty"` // 1-based: start when that client is finished/closed
 	StartAfterEvents  bool      `json:"start_after_events,omitempty"` // start once every planned event has fired
+	StartAfterMs      int       `json:"start_after_ms,omitempty"`     // start this many fake ms after the workload began
 	Slow              bool      `json:"slow,omitempty"`
 	NeverRead         bool      `json:"never_read,omitempty"`
+	ReadAfterMs       int       `json:"read_after_ms,omitempty"` // the client does not read for this long after connecting (its socket fills), then reads
 	CloseAfterSent    int       `json:"close_after_sent"`    // bytes; -1 never
 	CloseAfterReplies int       `json:"close_after_replies"` // -1 never
 	CloseRst          bool      `json:"close_rst,omitempty"`
@@ -67,6 +73,10 @@ type SchedCfg struct {
 	Fair     bool `json:"fair,omitempty"`      // no randomisation at all: round-robin (used for liveness profiles)
 	ChunkPct int  `json:"chunk_pct,omitempty"` // probability that a send/release/recv moves a partial amount
 	SettleS  int  `json:"settle_s,omitempty"`  // fake seconds of fair settle phase
+	// AlignedRelease: backends hand out their reply bytes in pieces related to reply boundaries and to the lengths of earlier
+	// replies on the same connection (end of a reply; end of a reply plus as many bytes of the next one as an earlier reply was
+	// long; ...), each piece being a read of its own for the proxy
+	AlignedRelease bool `json:"aligned_release,omitempty"`
 }
 
 type When struct {
@@ -87,6 +97,7 @@ type Event struct {
 	Slot  int      `json:"slot,omitempty"`
 	To    string   `json:"to,omitempty"`
 	Data  []string `json:"data,omitempty"`
+	DataB [][]byte `json:"data_b,omitempty"`
 	Fired bool     `json:"-"`
 }
 
@@ -100,6 +111,7 @@ type Plan struct {
 	Sched    SchedCfg     `json:"sched"`
 	Topos    []Topology   `json:"topos"` // Topos[0] is the initial truth
 	Prepop   [][2]string  `json:"prepop,omitempty"`
+	PrepopB  [][2][]byte  `json:"prepop_b,omitempty"`
 	Clients  []ClientPlan `json:"clients"`
 	Events   []Event      `json:"events,omitempty"`
 	Faulty   bool         `json:"faulty,omitempty"` // connection-level faults are injected: oracles relax narrowly
@@ -108,13 +120,75 @@ type Plan struct {
 	Notes    []string     `json:"notes,omitempty"`
 }
 
+// Seal fills the byte-exact shadow fields (see ReqPlan.KeysB) before the plan is serialised.
+func (p *Plan) Seal() {
+	for ci := range p.Clients {
+		for ri := range p.Clients[ci].Reqs {
+			r := &p.Clients[ci].Reqs[ri]
+			r.KeysB, r.ValsB = nil, nil
+			for _, k := range r.Keys {
+				r.KeysB = append(r.KeysB, []byte(k))
+			}
+			for _, v := range r.Vals {
+				r.ValsB = append(r.ValsB, []byte(v))
+			}
+		}
+	}
+	p.PrepopB = nil
+	for _, kv := range p.Prepop {
+		p.PrepopB = append(p.PrepopB, [2][]byte{[]byte(kv[0]), []byte(kv[1])})
+	}
+	for ei := range p.Events {
+		e := &p.Events[ei]
+		e.DataB = nil
+		for _, x := range e.Data {
+			e.DataB = append(e.DataB, []byte(x))
+		}
+	}
+}
+
+// Unseal restores Keys / Vals / Prepop / Event.Data from the byte-exact shadow fields of a plan read from a replay file.
+func (p *Plan) Unseal() {
+	for ci := range p.Clients {
+		for ri := range p.Clients[ci].Reqs {
+			r := &p.Clients[ci].Reqs[ri]
+			if len(r.KeysB) == len(r.Keys) {
+				for i := range r.KeysB {
+					r.Keys[i] = string(r.KeysB[i])
+				}
+			}
+			if len(r.ValsB) == len(r.Vals) {
+				for i := range r.ValsB {
+					r.Vals[i] = string(r.ValsB[i])
+				}
+			}
+		}
+	}
+	if len(p.PrepopB) == len(p.Prepop) {
+		for i := range p.PrepopB {
+			p.Prepop[i] = [2]string{string(p.PrepopB[i][0]), string(p.PrepopB[i][1])}
+		}
+	}
+	for ei := range p.Events {
+		e := &p.Events[ei]
+		if len(e.DataB) == len(e.Data) {
+			for i := range e.DataB {
+				e.Data[i] = string(e.DataB[i])
+			}
+		}
+	}
+}
+
 type WLPlan struct {
 	Initial WLFile   `json:"initial"`
 	Edits   []WLEdit `json:"edits"`
 }
 type WLFile struct {
 	Enable bool     `json:"enable"`
-	IPs    []string `json:"ips"`
+	IPs    []string `json:"ips"` // may contain duplicates (legal YAML; the admitted set is the set of distinct entries)
+	// the key is left out of the file altogether (then Enable must be false resp. IPs empty: YAML's zero values)
+	OmitEnable bool `json:"omit_enable,omitempty"`
+	OmitList   bool `json:"omit_list,omitempty"`
 }
 type WLEdit struct {
 	Kind string `json:"kind"` // write | truncate-write | invalid-then-valid | delete-recreate | rename-over
@@ -175,6 +249,9 @@ func (g *Gen) StdTopology(m, r int, fragmented bool) Topology {
 			id := fmt.Sprintf("%040x", 0xb000+i*16+j)
 			t.Nodes = append(t.Nodes, NodeDesc{ID: id, Addr: fmt.Sprintf("10.0.%d.%d:7000", i, j+2), MasterID: t.Nodes[i].ID})
 		}
+	}
+	if g.R.Pct(50) {
+		t.Shuffle = g.R.Next() | 1 // the order of the lines of CLUSTER NODES is arbitrary
 	}
 	return t
 }
